@@ -2100,4 +2100,50 @@ pub mod verif_hooks {
         }
         b.info.iter().map(|i| i.mask).collect()
     }
+
+    /// A buffer with EVERY field of `hb_buffer_t` taken from a `Life` (C05 clear-probe): the primitive-level state
+    /// through `make`, then the segment properties, both contexts (characters and lengths), `shaping_failed`,
+    /// `invisible` and the not-found-variation-selector glyph.
+    pub fn life_make(l: &Life) -> hb_buffer_t {
+        let mut b = make(&l.st);
+        b.direction = match l.direction {
+            1 => Direction::LeftToRight,
+            2 => Direction::RightToLeft,
+            3 => Direction::TopToBottom,
+            4 => Direction::BottomToTop,
+            _ => Direction::Invalid,
+        };
+        b.script = l
+            .script
+            .and_then(|t| Script::from_iso15924_tag(ttf_parser::Tag(t)));
+        b.language = l
+            .language
+            .as_ref()
+            .and_then(|s| <Language as core::str::FromStr>::from_str(s).ok());
+        for side in 0..2 {
+            let n = min(l.context[side].len(), CONTEXT_LENGTH);
+            for i in 0..n {
+                b.context[side][i] = char::from_u32(l.context[side][i]).unwrap_or('\0');
+            }
+            b.context_len[side] = n;
+        }
+        b.shaping_failed = l.shaping_failed;
+        b.invisible = l.invisible.map(|g| GlyphId(g as u16));
+        b.not_found_variation_selector = l.not_found_variation_selector;
+        b
+    }
+
+    /// `hb_buffer_t::clear` on a buffer whose every field was chosen by the caller; returns every field read back
+    /// plus the raw context arrays (all CONTEXT_LENGTH slots of both sides, whatever `context_len` says).
+    pub fn clear_probe(l: &Life) -> (Life, [[u32; CONTEXT_LENGTH]; 2]) {
+        let mut b = life_make(l);
+        b.clear();
+        let mut raw = [[0u32; CONTEXT_LENGTH]; 2];
+        for side in 0..2 {
+            for i in 0..CONTEXT_LENGTH {
+                raw[side][i] = b.context[side][i] as u32;
+            }
+        }
+        (life(&b), raw)
+    }
 }
